@@ -755,6 +755,28 @@ func (e *Exec) evalCall(x ECall, env *Env) Val {
 			return boolVal("true")
 		}
 		return boolVal("(forall ((" + r + " Int) (" + i + " Int)) (! (=> (<= (owner " + r + ") " + e.top(env.old) + ") (= (select (select " + cur + " " + r + ") " + i + ") (select (select " + old + " " + r + ") " + i + "))) :pattern ((select (select " + cur + " " + r + ") " + i + "))))")
+	case "funcref":
+		// funcref("pkg.Func$1"): the value of a (dirk) function or closure
+		ts, ok := x.Args[0].(EStr)
+		if !ok {
+			e.unsupported("funcref(\"pkg.Func\")")
+		}
+		name := ts.Val
+		if i := strings.LastIndex(name, "."); i > 0 && !strings.Contains(name, "/") {
+			var from *types.Package
+			if e.curFrame != nil && e.curFrame.fn.Pkg != nil {
+				from = e.curFrame.fn.Pkg.Pkg
+			} else {
+				from = e.ctxPkg
+			}
+			if pk := e.P.FindPackage(name[:i], from); pk != nil {
+				name = pk.Path() + name[i:]
+			}
+		}
+		if e.P.FindFunc(name) == nil {
+			e.unsupported("funcref: unknown function %q", name)
+		}
+		return intVal(e.funcSym(name))
 	case "tagof":
 		ts, ok := x.Args[0].(EStr)
 		if !ok {
